@@ -234,6 +234,7 @@ func (ap *accountPool) rebuild(detailed *nom.DetailedMomentum) error {
 	}
 
 	ap.log.Debug("started rebuilding account-pool", "momentum-identifier", detailed.Momentum.Identifier())
+	var rebuildErr error
 	for _, address := range addresses {
 		log := ap.log.New("address", address)
 		log.Debug("start rebuilding")
@@ -258,6 +259,7 @@ func (ap *accountPool) rebuild(detailed *nom.DetailedMomentum) error {
 
 		log.Debug("staring applying blocks", "num-uncommitted", len(uncommitted))
 		manager := db.NewMemDBManager(ap.stable.GetStableAccountDB(address))
+		linked := true
 		for _, block := range uncommitted {
 			patch := oldManager.GetPatch(block.Identifier())
 			err := manager.Add(&nom.AccountBlockTransaction{
@@ -265,8 +267,18 @@ func (ap *accountPool) rebuild(detailed *nom.DetailedMomentum) error {
 				Changes: patch,
 			})
 			if err != nil {
-				return errors.Errorf("account pool rebuild error. Unable to re-apply block %v. Reason %v", block.Header(), err)
+				// the uncommitted blocks of this account don't link to its confirmed blocks anymore: they are
+				// dropped; the other accounts still have to be rebuilt on top of the new stable state
+				if rebuildErr == nil {
+					rebuildErr = errors.Errorf("account pool rebuild error. Unable to re-apply block %v. Reason %v", block.Header(), err)
+				}
+				linked = false
+				break
 			}
+		}
+		if !linked {
+			log.Debug("dropped uncommitted blocks", "num-uncommitted", len(uncommitted))
+			continue
 		}
 		ap.managers[address] = manager
 
@@ -274,7 +286,7 @@ func (ap *accountPool) rebuild(detailed *nom.DetailedMomentum) error {
 	}
 
 	ap.log.Debug("finished rebuilding account-pool")
-	return nil
+	return rebuildErr
 }
 
 func (ap *accountPool) GetNewMomentumContent() []*nom.AccountBlock {
